@@ -45,6 +45,12 @@ inline Bytes icmp6_nd(Rng& r, const Addr& s, const Addr& d) {
     for (int i = 0; i < n; ++i) { int t = r.chance(0.8) ? (int)r.pick(std::vector<int>{1, 2, 3, 4, 5, 6, 7, 8, 9, 10, 11, 12, 13, 14, 15, 16, 17, 18, 19, 20, 21, 22, 23, 24, 25, 26, 27, 28, 29, 30, 31, 32}) : (int)r.below(256); size_t units = (size_t)r.range(1, 5); b.push_back((uint8_t)t); b.push_back((uint8_t)units); putb(b, biased_bytes(r, units * 8 - 2)); }
     set16(b, 2, csum_fin(csum_add(pseudo_acc(s, d, 58, b.size()), b.data(), b.size()))); return b;
 }
+// MLDv2 listener report (ICMPv6 type 143): records with source lists and auxiliary data, as multicast routers see them
+inline Bytes icmp6_mld2(Rng& r, const Addr& s, const Addr& d) {
+    Bytes b; b.push_back(143); b.push_back(0); put16(b, 0); put16(b, 0); int nrec = (int)r.small(0, 4); put16(b, (uint16_t)nrec);
+    for (int i = 0; i < nrec; ++i) { int nsrc = (int)r.small(0, 3), aux = r.chance(0.5) ? (int)r.small(0, 3) : 0; b.push_back((uint8_t)r.range(1, 6)); b.push_back((uint8_t)aux); put16(b, (uint16_t)nsrc); Addr g = rnd6(r); g.b[0] = 0xff; g.b[1] = 0x02; putb(b, g.b, 16); for (int k = 0; k < nsrc; ++k) putb(b, rnd6(r).b, 16); putb(b, r.bytes((size_t)aux * 4)); }
+    set16(b, 2, csum_fin(csum_add(pseudo_acc(s, d, 58, b.size()), b.data(), b.size()))); return b;
+}
 inline Bytes dhcp_random(Rng& r) {
     Bytes b; b.push_back(r.chance(0.5) ? 1 : 2); b.push_back(1); b.push_back(6); b.push_back(0); put32(b, (uint32_t)r.next()); put16(b, 0); put16(b, r.chance(0.5) ? 0x8000 : 0); for (int i = 0; i < 4; ++i) put32(b, (uint32_t)r.next()); putb(b, r.bytes(16)); b.resize(b.size() + 64 + 128, 0); put32(b, 0x63825363);
     int n = (int)r.small(0, 10); for (int i = 0; i < n; ++i) { int code = r.chance(0.8) ? (int)r.pick(std::vector<int>{1, 3, 6, 12, 15, 28, 50, 51, 53, 54, 55, 58, 59, 60, 61, 81, 82}) : (int)r.range(1, 254); size_t l = (size_t)r.pick(std::vector<int>{0, 1, 2, 3, 4, 5, 7, 8, 12, 16, 30}); b.push_back((uint8_t)code); b.push_back((uint8_t)l); putb(b, biased_bytes(r, l)); }
@@ -69,6 +75,7 @@ inline Bytes pppoe_random(Rng& r, bool& session) {
 inline Bytes l4_random(Rng& r, const Addr& s, const Addr& d, uint8_t& proto, std::string& desc) {
     const Fixtures& fx = Fixtures::get();
     if (s.is6() && r.chance(0.2)) { proto = 58; desc += "/icmpv6-nd"; return icmp6_nd(r, s, d); }
+    if (s.is6() && r.chance(0.06)) { proto = 58; desc += "/icmpv6-mld2"; return icmp6_mld2(r, s, d); }
     int k = (int)r.below(s.is6() ? 9 : 12);
     switch (k) {
         case 0: { proto = 6; TcpSeg t; t.sport = (uint16_t)r.next(); t.dport = (uint16_t)r.next(); t.seq = (uint32_t)r.next(); t.ack = (uint32_t)r.next(); t.flags = (uint8_t)r.next() & 0x3f; t.win = (uint16_t)r.next();
